@@ -251,3 +251,21 @@ func jsonKey(fieldName, tag string) string {
 	}
 	return key
 }
+
+// paramSetPairsRule: every NewParamSetPair binds the store key named after a field to the address of that very field,
+// with the expected validator function itself (not a closure or bound method whose behaviour depends on a receiver).
+func paramSetPairsRule(c *Check, rule, fnSpec string, validators map[string]string) {
+	fn := c.F(fnSpec)
+	n := 0
+	for _, cs := range c.Calls(fn, "params/types.NewParamSetPair") {
+		a := c.P.ArgExprs(cs)
+		key, field, val := a[0].String(), a[1].String(), a[2].String()
+		fname := strings.TrimPrefix(field, "$0.")
+		n++
+		c.Req(strings.HasPrefix(field, "$0.") && strings.HasSuffix(key, fname), rule, funcName(fn)+": key "+key+" ↔ field "+field, cs.Ins.Pos(), "", fmt.Sprintf("store key %s is bound to field %s: a governance parameter change of one flag would set the other", key, field))
+		if want, ok := validators[fname]; ok {
+			c.Req(val == want, rule, funcName(fn)+": validator of "+fname, cs.Ins.Pos(), val, fmt.Sprintf("validator of %s is %s, required %s (a receiver-dependent validator is bound to a zero value by ParamKeyTable and never validates)", fname, val, want))
+		}
+	}
+	c.Req(n >= 2, rule, funcName(fn)+": pairs found", fn.Pos(), fmt.Sprint(n), "no NewParamSetPair calls found")
+}
